@@ -6,6 +6,10 @@ import lentil
 from vlib import gen
 from vlib.runner import Skip, Violation, hyp, lentil_call
 
+# the check's own calls are issued with keywords or positionally in the documented order (vlib/callforms.py)
+from vlib import callforms as _cf
+lentil = _cf.proxy(lentil)
+
 RULE = ("drawn masks (disc, ellipse, ring, two islands, blob; centred or not; even/odd/non-square arrays), 1-8 "
         "distinct modes from 1..36 in arbitrary order, drawn coefficients, both normalisations, default and "
         "caller-supplied (shifted/rotated) coordinates; non-trivial = the mode set is not 1..k in order; distinct = "
